@@ -7,7 +7,8 @@ Leg A: coq/theories/Properties/C02.v: refinement to "scope stack per thread + wr
        interleaving and at call granularity; the refutation of the unrepaired variant (F1's replay) kept as a lemma.
 Leg B: correspondence, ONE PROCESS PER HISTORY (the global default can be set once per process): real OS threads,
        set_default guards, real panics unwinding through with_default, set_global_default at every position incl. never;
-       implementation vs Dispatch/Model.v op by op; plus two cross-checks of the Coq side against this file:
+       emissions whose receiving collector's callback PANICS (caught by catch_unwind) and/or emits re-entrantly, on the fast
+       and the slow path; implementation vs Dispatch/Model.v + Dispatch/Reentry.v op by op; plus two cross-checks of the Coq side against this file:
        Model.aspec == the Python specification below, and every implementation/spec mismatch lies in Model.F1_class.
 Leg C: oracle = the specification (a stack per thread + a write-once cell), computed HERE from the op list, against who
        actually received each emission / what get_default, Dispatch::default-style queries and get_current returned."""
@@ -70,6 +71,20 @@ def gen_case(rng, pool, malformed=False):
             depth[t] -= 1
         elif r < 0.46 and handle and gset:
             ops.append(("setglobal", t, rng.choice(sorted(handle))))   # a second attempt must fail
+        elif r < 0.50 and created:
+            # an emission whose receiving collector's callback panics (caught) and/or emits re-entrantly — on whatever path the
+            # thread is on (fast: no scope anywhere; slow: inside its own scope, or through the global default while another
+            # thread holds a scope) — followed, usually, by a plain emission and a lookup on the SAME thread
+            k = rng.choice([1, 1, 1, 2, 3])
+            if not gset and depth[t] == 0 and any(depth) and rng.random() < 0.85:
+                t = rng.choice([u for u in range(nthreads) if depth[u] > 0])   # a thread that has a collector to call back
+            ops.append(("emitcb", t, rng.choice(events), k, rng.choice(events)))
+            if rng.random() < 0.8:
+                ops.append(("emit", t, rng.choice(events)))
+            if rng.random() < 0.5:
+                ops.append(("getdefault", t, None))
+            elif rng.random() < 0.2:
+                ops.append(("getcurrent", t))
         elif r < 0.70:
             ops.append(("emit", t, rng.choice(events)))
         elif r < 0.86:
@@ -177,13 +192,18 @@ class Spec:
         if k in ("getdefault", "getcurrent"):
             self.note_use(o[1], k == "getcurrent" or self.scopes_live() > 0)
             return {"d": self.default(o[1])}
-        if k in ("emit", "probe"):
+        if k in ("emit", "probe", "emitcb"):
             d = self.default(o[1])
             p = pool[o[2]]
             self.note_use(o[1], self.scopes_live() > 0)     # over-approximation: the macro may not have asked (attribution only)
             acc = d > 0 and self.accepts(d - 1, p)
             if k == "emit":
                 return {"recv": [d - 1] if acc else [], "cur": d}
+            if k == "emitcb":
+                # the OUTER emission obeys the property like any other; the callback panics iff it ran (= the emission was received)
+                # and was told to.  What an emission from INSIDE the callback reaches is not judged here (get_default must not be
+                # nested, documented); that the thread is unaffected AFTERWARDS is judged by every later op.
+                return {"recv": [d - 1] if acc else [], "cur": d, "outer_only": 1, "panic": int(acc and o[3] in (1, 3))}
             return {"r": int(acc), "cur": d}
         if k == "panic":
             if not all(self.valid(d) for d in o[2]):
@@ -195,7 +215,7 @@ class Spec:
     def f1_shape(self, o):
         """The specific failing shape of F1 at op o (checked BEFORE stepping o): the thread has no live scope of its own, the
         global default is set, the thread used the dispatcher machinery before it was, and the slow path is taken."""
-        if o[0] not in ("emit", "probe", "getdefault", "getcurrent"):
+        if o[0] not in ("emit", "probe", "getdefault", "getcurrent", "emitcb"):
             return False
         t = o[1]
         return (not self.stack.get(t) and self.glob is not None and self.used_before_global.get(t) is True
@@ -238,6 +258,11 @@ def oracle(pool, case, recs):
         if "recv" in e:
             judged += 1
             got = [d[0] for d in r["del"]]
+            if e.get("outer_only"):
+                got = got[:1]
+                if r.get("panic") != e["panic"]:
+                    vio.append(("emission on thread %d whose collector callback %s: the macro call %s" %
+                                (o[1], "panics" if o[3] in (1, 3) else "returns", "unwound" if r.get("panic") else "returned normally"), i, False))
             if got != e["recv"]:
                 lost = f1 and got == [] and e["cur"] > 0
                 vio.append(("emission on thread %d received by %s, specification says %s (thread's default = %s)"
@@ -256,12 +281,14 @@ def nontrivial(case):
     for o in case["ops"]:
         if o[0] in ("close", "panic"):
             seen_close = True
-        if o[0] in ("emit", "getdefault", "getcurrent", "probe") and seen_close:
+        if o[0] in ("emit", "getdefault", "getcurrent", "probe", "emitcb") and seen_close:
             return True
         if o[0] == "setglobal" and used:
             return True
-        if o[0] in ("open", "emit", "getdefault", "getcurrent", "panic"):
+        if o[0] in ("open", "emit", "getdefault", "getcurrent", "panic", "emitcb"):
             used = True
+        if o[0] == "emitcb":
+            seen_close = True       # an emission / lookup after a callback that panicked or emitted is non-trivial too
     return False
 
 
@@ -499,8 +526,11 @@ def explore(ctx, rep, fx, tag, binpath, pool, smax, cases):
         gpos = [i for i, o in enumerate(case["ops"]) if o[0] == "setglobal"]
         rep.count("global:never" if not gpos else "global:first-third" if gpos[0] * 3 < len(case["ops"]) else
                   "global:middle" if gpos[0] * 3 < 2 * len(case["ops"]) else "global:last-third")
-        for o in case["ops"]:
+        for o, r in zip(case["ops"], recs):
             rep.count("op:" + o[0])
+            if o[0] == "emitcb":
+                live = sum(1 for q in case["ops"][:case["ops"].index(o)] if q[0] in ("open",)) > 0
+                rep.count("emitcb:%s:%s" % ({1: "panic", 2: "reentrant", 3: "reentrant+panic"}[o[3]], "callback ran" if r["del"] else "not received"))
         if nontrivial(case):
             rep.nontrivial.add(D.case_text(case))
         if not vio:
@@ -533,7 +563,7 @@ def explore(ctx, rep, fx, tag, binpath, pool, smax, cases):
     rep.count("histories hitting known finding F1", n_f1)
     # ---- model: tie + cross-checks
     try:
-        model = D.run_model(ctx, pool, smax, good, fx, what=("run", "spec", "f1"), tag="cases_" + tag)
+        model = D.run_model(ctx, pool, smax, good, fx, what=("run", "spec", "f1"), tag="cases_" + tag, x=True)
         dis, spec_dis, class_dis = [], [], []
         for cid, case in good.items():
             d = D.diff_case(pool, case, impl[cid]["out"], model[cid]["run"])
